@@ -12,7 +12,7 @@ def run_queue(tier, seed):
     maxops = 4
     cfgname = "MC_Queue_gen.cfg"
     with open(os.path.join(common.SPECS, "concurrency", cfgname), "w") as f:
-        f.write(f"CONSTANTS MaxOps = {maxops}\nINIT Init\nNEXT Next\nINVARIANTS OnePerSenderKind OnlyValid KeepsMax NothingLost Done\nCHECK_DEADLOCK FALSE\n")
+        f.write(f"CONSTANTS MaxOps = {maxops} Alphabet = \"full\"\nINIT Init\nNEXT Next\nINVARIANTS OnePerSenderKind OnlyValid KeepsMax NothingLost Done\nCHECK_DEADLOCK FALSE\n")
     try:
         r = common.tlc("concurrency", "MC_Queue", cfg=cfgname, workers=4, timeout=1800, xmx="8g")
     finally:
@@ -28,6 +28,19 @@ def run_queue(tier, seed):
     else:
         # thorough: one in seven (about 47 000 sequences, ~6 min)
         cases = [c for i, c in enumerate(cases) if (i + seed) % 7 == 0]
+    # longer sequences (two or more messages pending at a recv, then a competing send, then recvs) over a small alphabet
+    with open(os.path.join(common.SPECS, "concurrency", cfgname), "w") as f:
+        f.write(f"CONSTANTS MaxOps = {5 if tier == 'quick' else 6} Alphabet = \"small\"\nINIT Init\nNEXT Next\nINVARIANTS OnePerSenderKind OnlyValid KeepsMax NothingLost Done\nCHECK_DEADLOCK FALSE\n")
+    try:
+        r2 = common.tlc("concurrency", "MC_Queue", cfg=cfgname, workers=4, timeout=1800, xmx="8g")
+    finally:
+        os.remove(os.path.join(common.SPECS, "concurrency", cfgname))
+    if not r2.ok:
+        raise common.ToolError("PrunableQueue.tla invariants fail on the specification (small alphabet):\n" + r2.out[-1500:])
+    long_cases = r2.printed("CASE")
+    total_long = len(long_cases)
+    long_cases = [c for i, c in enumerate(long_cases) if (i + seed) % (3 if tier == "quick" else 11) == 0]
+    cases = cases + long_cases
     cp = os.path.join(d, "cases.ndjson")
     common.write_ndjson(cp, cases)
     rp = os.path.join(d, "report.json")
@@ -43,7 +56,8 @@ def run_queue(tier, seed):
             "queue_concurrent_rule": "4 racing sender threads per round (300 rounds on sync::prunable_mpsc with the BFT selection rule over cheap values and a dawdling selection "
                                      "function, 6 rounds on the real create_input_channel() with signed votes); after the race the queue content must satisfy OnePerSenderKind, OnlyValid, "
                                      "KeepsMax, NothingLost of PrunableQueue.tla (every interleaving of atomic sends is a sequence TLC checked)",
-            "queue_spec_states": r.distinct, "queue_sequences_replayed": rep["evaluations"], "queue_sample": rep["samples"][:1], "queue_max_ops": maxops, "queue_sequences_enumerated": total_cases}
+            "queue_spec_states": r.distinct, "queue_sequences_replayed": rep["evaluations"], "queue_sample": rep["samples"][:1], "queue_max_ops": maxops, "queue_sequences_enumerated": total_cases,
+            "queue_long_sequences": {"enumerated": total_long, "replayed": len(long_cases), "alphabet": "2 senders x commit x views 0..2", "ops": 5 if tier == "quick" else 6}}
 
 
 def replay(c):
